@@ -407,6 +407,77 @@ def mutated_flow(X, tag, kind, nmut):
     return f, done
 
 
+
+# ------------------------------------------------------------------------------------------------
+# attribute-level view of a flow, written without get_state()/Serializable: what an addon reading the
+# loaded flow's attributes sees.  (Comparing get_state() of the written and the read flow cannot see a
+# loss that get_state() itself commits on both sides.)
+
+_ATTR_SKIP = {"live",  # not part of the file: loaded flows are never live
+              "state"}  # connection state: compared through get_state (a loaded connection is reported closed)
+
+
+def attr_view(o, depth=0):
+    import enum
+
+    if depth > 12:
+        return "<deep>"
+    if isinstance(o, bool) or o is None or isinstance(o, (str, bytes)):
+        return (type(o).__name__, o)
+    if isinstance(o, (int, float)):
+        return ("num", float(o))  # declared-float fields hold ints in test flows; the file stores the value
+    if isinstance(o, enum.Enum):
+        return ("enum", type(o).__name__, o.value)
+    if isinstance(o, (list, tuple)):
+        return ("seq", [attr_view(x, depth + 1) for x in o])
+    if isinstance(o, dict):
+        return ("dict", {repr(k): attr_view(v, depth + 1) for k, v in o.items()})
+    if hasattr(o, "to_pem"):
+        return ("cert", o.to_pem())
+    if hasattr(o, "full_spec"):
+        return ("mode", o.full_spec)
+    if isinstance(getattr(o, "fields", None), tuple):
+        return ("multidict", type(o).__name__, o.fields)
+    d = {}
+    if hasattr(o, "__dict__"):
+        d.update(vars(o))
+    for c in type(o).__mro__:
+        for s_ in getattr(c, "__slots__", ()):
+            if hasattr(o, s_):
+                d[s_] = getattr(o, s_)
+    return ("obj", type(o).__name__, {k: attr_view(v, depth + 1) for k, v in d.items() if not k.startswith("_") and k not in _ATTR_SKIP})
+
+
+def attr_diff(a, b, path=""):
+    """first difference between two attr_views (None if equal); attributes present on one side only are ignored"""
+    if type(a) is not type(b) or (isinstance(a, tuple) and a and b and a[0] != b[0]):
+        return f"{path}: {a!r} != {b!r}"[:300]
+    if isinstance(a, tuple) and a and a[0] == "obj":
+        if a[1] != b[1]:
+            return f"{path}: {a[1]} != {b[1]}"
+        for k in sorted(set(a[2]) & set(b[2])):
+            d = attr_diff(a[2][k], b[2][k], f"{path}.{k}")
+            if d:
+                return d
+        return None
+    if isinstance(a, tuple) and a and a[0] == "seq":
+        if len(a[1]) != len(b[1]):
+            return f"{path}: length {len(a[1])} != {len(b[1])}"
+        for i, (x, y) in enumerate(zip(a[1], b[1])):
+            d = attr_diff(x, y, f"{path}[{i}]")
+            if d:
+                return d
+        return None
+    if isinstance(a, tuple) and a and a[0] == "dict":
+        if set(a[1]) != set(b[1]):
+            return f"{path}: keys {sorted(a[1])} != {sorted(b[1])}"
+        for k in sorted(a[1]):
+            d = attr_diff(a[1][k], b[1][k], f"{path}{{{k}}}")
+            if d:
+                return d
+        return None
+    return None if a == b else f"{path}: {a!r} != {b!r}"[:300]
+
 # ------------------------------------------------------------------------------------------------
 # symbolic files: the reader runs on buffers whose bytes are solver variables
 
